@@ -104,6 +104,7 @@ func RunCLIHook(p *Program, spec world.Spec, hook func(w *world.World, op *world
 
 // APIResult is the outcome of one library call.
 type APIResult struct {
+	Raw    []byte // the slice exactly as returned (may alias library-owned memory)
 	Out    []byte
 	Err    string
 	IsErr  bool
@@ -175,6 +176,7 @@ func ApplyAPI(a Applier, filename string, src []byte) (res APIResult) {
 		res.Err = err.Error()
 		return res
 	}
+	res.Raw = out
 	res.Out = append([]byte(nil), out...)
 	return res
 }
